@@ -30,7 +30,9 @@ var slowFailures atomic.Int64
 
 func Patience() time.Duration {
 	if slowFailures.Load() >= 3 {
-		return 2 * time.Second
+		// the verdict is settled (three genuine hangs with the long watchdog): the rest of the run only
+		// has to terminate
+		return 100 * time.Millisecond
 	}
 	return 30 * time.Second
 }
